@@ -88,6 +88,8 @@ def run_tlexport(files, argv, child_setup=None, cpu=60, wall=900, cwd=None, outn
     d = scratch_dir()
     try:
         for n, b in files.items():
+            if "/" in n:
+                os.makedirs(os.path.dirname(os.path.join(d, n)), exist_ok=True)
             with open(os.path.join(d, n), "wb") as f:
                 f.write(b)
         runs = argv if argv and isinstance(argv[0], (list, tuple)) else [argv]
@@ -114,7 +116,18 @@ def run_tlexport(files, argv, child_setup=None, cpu=60, wall=900, cwd=None, outn
                 code = 0
                 try:
                     for ri, r in enumerate(runs):
-                        sys.argv = ["tlexport"] + list(r)
+                        r = list(r)
+                        # directives in front of a run's arguments (what a user's shell does between two commands): "@cd:<dir>" changes the working directory,
+                        # "@cp:<src>:<dst>" copies a file (a key log or capture rewritten under the same path)
+                        while r and r[0].startswith("@"):
+                            op = r.pop(0)
+                            if op.startswith("@cd:"):
+                                os.chdir(op[4:])
+                            elif op.startswith("@cp:"):
+                                src, dst = op[4:].split(":")
+                                with open(src, "rb") as fsrc, open(dst, "wb") as fdst:
+                                    fdst.write(fsrc.read())
+                        sys.argv = ["tlexport"] + r
                         if earlier_may_fail and ri < len(runs) - 1:
                             try:                    # an earlier run of the same process that ends in an exception or exit(): the later run must not notice
                                 tmain.run()
@@ -189,6 +202,8 @@ def run_subprocess(files, argv, env=None, cwd=None, timeout=300, outname="out.pc
     d = scratch_dir("tlesub")
     try:
         for n, b in files.items():
+            if "/" in n:
+                os.makedirs(os.path.dirname(os.path.join(d, n)), exist_ok=True)
             with open(os.path.join(d, n), "wb") as f:
                 f.write(b)
         args = [a.replace("{dir}", d) for a in argv]
